@@ -19,6 +19,14 @@ func vpDur(name string) time.Duration {
 	return time.Duration(d)
 }
 
+// vpTimeoutDur: a timeout value; positive ones are at least a second, because the engine's contexts
+// never expire (request timeouts are outside every claim) and the native replay must agree.
+func vpTimeoutDur(name string) time.Duration {
+	d := vpDur(name)
+	vpAssume(vpOr(d <= 0, d >= time.Second))
+	return d
+}
+
 func vpSmallInt(name string) int {
 	v := vpInt(name)
 	vpAssume(vpAnd(v > -(1<<31), v < 1<<31))
@@ -114,9 +122,9 @@ func VPH_C24_export_update() {
 		n.Squash = "all" // a change: must be rejected as a whole
 	}
 	if vpBool("with-timeouts") {
-		n.Timeouts = &TimeoutConfig{ReadTimeout: vpDur("t.read"), WriteTimeout: vpDur("t.write"), LookupTimeout: vpDur("t.lookup"),
-			ReaddirTimeout: vpDur("t.readdir"), CreateTimeout: vpDur("t.create"), RemoveTimeout: vpDur("t.remove"),
-			RenameTimeout: vpDur("t.rename"), HandleTimeout: vpDur("t.handle"), DefaultTimeout: vpDur("t.default")}
+		n.Timeouts = &TimeoutConfig{ReadTimeout: vpTimeoutDur("t.read"), WriteTimeout: vpTimeoutDur("t.write"), LookupTimeout: vpTimeoutDur("t.lookup"),
+			ReaddirTimeout: vpTimeoutDur("t.readdir"), CreateTimeout: vpTimeoutDur("t.create"), RemoveTimeout: vpTimeoutDur("t.remove"),
+			RenameTimeout: vpTimeoutDur("t.rename"), HandleTimeout: vpTimeoutDur("t.handle"), DefaultTimeout: vpTimeoutDur("t.default")}
 	}
 	err := env.nfs.UpdateExportOptions(n)
 	after := env.nfs.GetExportOptions()
@@ -176,8 +184,8 @@ func VPH_C24_tuning_update() {
 		if nilTimeouts {
 			t.Timeouts = nil
 		} else {
-			t.Timeouts.ReadTimeout = vpDur("t.read")
-			t.Timeouts.DefaultTimeout = vpDur("t.default")
+			t.Timeouts.ReadTimeout = vpTimeoutDur("t.read")
+			t.Timeouts.DefaultTimeout = vpTimeoutDur("t.default")
 		}
 	})
 	after := env.nfs.GetExportOptions()
